@@ -632,8 +632,8 @@ func TestVerifC16ExecSkel(t *testing.T) {
 		tags = append(tags, "note:"+n)
 	}
 
-	// information only: are the sections literally the programs of the fine machine (C16/ConcFine.v)?  The verdict
-	// is by role (exec_shape, wf_skeleton); another order or number of reads inside ONE section is harmless
+	// information only: are the sections literally the programs `progs_now` of C16/ConcGen.v?  The verdict is by
+	// role (exec_shape, programs/progs_ok); another order or number of accesses inside ONE section is covered as well
 	want := map[string]string{
 		"Hash":         "ERLock ERead FJwk ERUnlock",
 		"signWithHash": "ERLock ERead FJwk ERead FKey ERUnlock",
